@@ -50,6 +50,9 @@ pub fn campaign(e: &Engine, target: &str, runs: u64, max_len: usize) {
         .arg("-len_control=0")
         .arg(format!("-max_len={}", max_len))
         .arg("-print_final_stats=1")
+        .arg("-report_slow_units=300")
+        .arg("-timeout=600")
+        .arg("-rss_limit_mb=8000")
         .arg(format!("-artifact_prefix={}", prefix))
         .output();
     let output = match output {
@@ -71,7 +74,12 @@ pub fn campaign(e: &Engine, target: &str, runs: u64, max_len: usize) {
         for f in rd.flatten() {
             let name = f.file_name().to_string_lossy().to_string();
             if name.starts_with(&format!("{}-fuzz-{}-", e.prop, target)) {
-                artifacts.push(f.path());
+                if name.contains("-crash-") {
+                    artifacts.push(f.path());
+                } else {
+                    // slow-unit / timeout / oom artifacts say nothing about the property
+                    let _ = std::fs::remove_file(f.path());
+                }
             }
         }
     }
